@@ -162,6 +162,42 @@ fn diagnosed_operand_sweep() -> Sweep {
     )
 }
 
+// Arithmetic inside types: two indexes of an opaque type family have to be compared, so the checker
+// normalises closed arithmetic that a program would never run — divisions by zero included.
+fn type_level_arithmetic_sweep() -> Sweep {
+    const INDEXES: [&str; 16] = [
+        "1 / 0", "10 / 0", "0 / 0", "(0 - 1) / 0", "1 / (1 - 1)", "-(1 / 0)", "1 / 0 + 1", "if 1 / 0 == 1 then 1 else 2", "7 / 2", "(0 - 7) / 2", "1 + 2", "2 * 3", "3", "1 - 2",
+        "100000000000000000000 * 100000000000000000000", "(n : int = 1 / 0; 3)",
+    ];
+    Sweep::new(
+        "type-level arithmetic (indexes of an opaque type family, divisions by zero included)",
+        (INDEXES.len() * INDEXES.len() * 2) as u64,
+        |idx| {
+            let i = idx as usize;
+            let (a, b) = (INDEXES[(i / 2) % 16], INDEXES[i / 32]);
+            let text = if i % 2 == 0 {
+                format!("(bucket : int -> type) => (k : bucket ({a})) => (j : bucket ({b})) => if true then k else j")
+            } else {
+                format!("(bucket : int -> type) => (mk : (z : int) -> bucket ({a})) => (w : bucket ({b}) = mk 0; 1)")
+            };
+            count!("evaluations");
+            count!("type_level_arithmetic_programs");
+            match library_verdict(&text, 3) {
+                Ok(true) => {
+                    count!("lib_accepted");
+                    count!("nontrivial");
+                }
+                Ok(false) => {
+                    count!("lib_rejected");
+                    count!("nontrivial");
+                }
+                Err((sub, what)) => violation(&sub, &text, "Ok(..) or Err(non-empty errors), no panic", &what),
+            }
+        },
+        |idx| format!("type-level arithmetic case {idx}"),
+    )
+}
+
 fn strings_sweep(name: &str, alpha: Vec<&'static str>, min: usize, max: usize) -> Sweep {
     let seqs = Seqs::with_min(alpha.len(), min, max);
     let s2 = seqs.clone();
@@ -527,13 +563,14 @@ impl Prop for C14 {
             v.push(edits_sweep_over(&format!("slice {name}"), sg, lo, hi));
         }
         v.push(diagnosed_operand_sweep());
+        v.push(type_level_arithmetic_sweep());
         v.push(cli_sweep(tier));
         v
     }
     fn evidence(&self, tier: Tier) -> EvidenceSpec {
         EvidenceSpec {
             level: "exploration",
-            rule: "in-process, in isolated workers with a 16 MiB stack: every string up to the C09 bounds through tokenize+parse (and type_check when they parse); every token sequence up to length 4/5 over all 29 token symbols (28 kinds + line-break terminator, so also streams tokenize never emits) and of length 5/6 over a 21-symbol class alphabet through parse; every sentence of grammar.y up to 5/7 tokens (class alphabet) with every single-token deletion, substitution (29 kinds) and insertion (29 kinds at every position), and the same edits of every sentence of six sub-grammar slices (binders, definition groups, groups in binder domains to 9/11 tokens, conditionals with groups to 9/10, arithmetic and applications to 7/8), where an edit leaves a recovered error deep inside an otherwise complete tree; 624 programs in which the checker has to quote a compound operand (26 operand shapes: applications with parenthesised arguments in every position, operator chains with grouped operands, negations, conditionals, groups; in 8 contexts that reject an integer there; 3 layouts). Each stage must return Ok or a non-empty error list, never panic, never abort, never exceed the watchdog. Process level: the real `gram check` binary on every byte string of length <= 1, every pair over a byte class alphabet (quick) / all 65536 pairs (thorough), the examples and single-byte invalid-UTF-8 mutations of them, an empty file, a missing file and a directory: exit 0 with output and no stderr, or exit 1 with no output and an [Error] diagnostic; and the verdict must agree with the in-process pipeline; for accepted files (the examples, members of the alias and nested-group families, dependent-type programs) the standard output of `gram check` and of `gram run` must be, byte for byte, the elaborated term and type / the value that the in-process pipeline computes, in the format of main.rs. non-trivial = inputs that reach name resolution or beyond, and launches that satisfied the contract".to_owned(),
+            rule: "in-process, in isolated workers with a 16 MiB stack: every string up to the C09 bounds through tokenize+parse (and type_check when they parse); every token sequence up to length 4/5 over all 29 token symbols (28 kinds + line-break terminator, so also streams tokenize never emits) and of length 5/6 over a 21-symbol class alphabet through parse; every sentence of grammar.y up to 5/7 tokens (class alphabet) with every single-token deletion, substitution (29 kinds) and insertion (29 kinds at every position), and the same edits of every sentence of six sub-grammar slices (binders, definition groups, groups in binder domains to 9/11 tokens, conditionals with groups to 9/10, arithmetic and applications to 7/8), where an edit leaves a recovered error deep inside an otherwise complete tree; 624 programs in which the checker has to quote a compound operand (26 operand shapes: applications with parenthesised arguments in every position, operator chains with grouped operands, negations, conditionals, groups; in 8 contexts that reject an integer there; 3 layouts); 512 programs in which two indexes of an opaque type family are closed arithmetic that the checker has to normalise (divisions by zero, truncating division of negatives, 40-digit products). Each stage must return Ok or a non-empty error list, never panic, never abort, never exceed the watchdog. Process level: the real `gram check` binary on every byte string of length <= 1, every pair over a byte class alphabet (quick) / all 65536 pairs (thorough), the examples and single-byte invalid-UTF-8 mutations of them, an empty file, a missing file and a directory: exit 0 with output and no stderr, or exit 1 with no output and an [Error] diagnostic; and the verdict must agree with the in-process pipeline; for accepted files (the examples, members of the alias and nested-group families, dependent-type programs) the standard output of `gram check` and of `gram run` must be, byte for byte, the elaborated term and type / the value that the in-process pipeline computes, in the format of main.rs. non-trivial = inputs that reach name resolution or beyond, and launches that satisfied the contract".to_owned(),
             assumptions: vec![
                 "token sequences that parse are also type checked in-process unless the reference finds a divergent piece in them (counted as skipped_divergent); an abnormal ending after that pre-screen is a violation".to_owned(),
                 "NO_COLOR=1 (as the repository's CI)".to_owned(),
